@@ -123,9 +123,10 @@ fn main() {
         names.sort();
         names.dedup();
         names.retain(|n| !locals.contains(n.as_str()) && n != "main" && n != "init");
-        // quick: at most 3 names per module (first, middle, last)
-        if run.quick() && names.len() > 3 {
-          names = vec![names[0].clone(), names[names.len() / 2].clone(), names[names.len() - 1].clone()];
+        // at most 3 (quick) / 8 (thorough) names per module, spread over the sorted list
+        let cap = if run.quick() { 3 } else { 8 };
+        if names.len() > cap {
+          names = (0..cap).map(|k| names[k * (names.len() - 1) / (cap - 1)].clone()).collect();
         }
         other_namespace_names.insert(tname.clone(), names);
       }
